@@ -52,6 +52,14 @@ func genTunnel(t *rapid.T) Round {
 			r.P["udpStage"] = rapid.IntRange(0, 1).Draw(t, "udpStage") // 1: that exit is reached before the closers start
 		}
 	}
+	if r.P["udp"] == 0 && rapid.IntRange(0, 4).Draw(t, "startRace") == 0 {
+		// Start() of a REGISTERED tunnel (BaseMappingHandler registers first, starts afterwards)
+		// racing the closes that reach it through the manager. None of these paths cancels the
+		// manager's context, so a tunnel left "closed but running" keeps its goroutines.
+		r.P["startRace"] = 1
+		r.P["bytes"] = 0
+		r.Paths = append([]string{"start"}, drawPaths(t, []string{"peer-notify", "fatal-error-notify", "close-all"}, 2)...)
+	}
 	return r
 }
 
@@ -111,10 +119,14 @@ func runTunnel(r Round) *outcome {
 		o.skipped = true
 		return o
 	}
-	if err := tn.Start(); err != nil {
-		o.skipped = true
-		return o
+	startRace := r.p("startRace") == 1
+	if !startRace {
+		if err := tn.Start(); err != nil {
+			o.skipped = true
+			return o
+		}
 	}
+	var startErr error
 	// real I/O through the tunnel in both directions before the race
 	nb := r.p("bytes")
 	if nb > 0 {
@@ -178,6 +190,10 @@ func runTunnel(r Round) *outcome {
 			rc.spin(kindPath, p, func() { cancel() })
 		case "fatal-error-notify":
 			rc.spin(kindPath, p, func() { mgr.OnTunnelError(id, "m1", "E1", "fatal", false) })
+		case "close-all":
+			rc.spin(kindPath, p, func() { mgr.CloseAll() })
+		case "start":
+			rc.spin(kindPath, "Start", func() { startErr = tn.Start() })
 		case "tunnel-write-fails":
 			fire := func() {
 				tun.FailWriteAfter.Store(tun.BytesWritten())
@@ -199,6 +215,13 @@ func runTunnel(r Round) *outcome {
 		return o
 	}
 	rc.measure(o)
+	if startRace {
+		if startErr == nil {
+			o.extraClass = append(o.extraClass, "start-won-then-closed")
+		} else {
+			o.extraClass = append(o.extraClass, "start-refused-tunnel-already-closing")
+		}
+	}
 
 	// unblock pending I/O: both far ends go away
 	app.Close()
